@@ -19,9 +19,9 @@ SMALL = [1.0, 2.0, 0.5, 3.0, -1.0, 0.0, 1.5]
 
 # user functions: name -> (n user-type inputs, fortran template body, python twin)
 FFUNCS = {
-    "<func>f": (1, "${result} = -2*${y} + ${t}", lambda t, y: -2 * y + t),
-    "<func>g": (1, "${result} = 0.5d0*${y} - 1", lambda t, y: 0.5 * y - 1),
-    "<func>h": (2, "${result} = ${y} - ${z} + 2*${t}", lambda t, y, z: y - z + 2 * t),
+    "<func>f": (1, "${result}{m} = -2*${y}{m} + ${t}", lambda t, y: -2 * y + t),
+    "<func>g": (1, "${result}{m} = 0.5d0*${y}{m} - 1", lambda t, y: 0.5 * y - 1),
+    "<func>h": (2, "${result}{m} = ${y}{m} - ${z}{m} + 2*${t}", lambda t, y, z: y - z + 2 * t),
 }
 # right-hand side of the optional second user type "v" (its own component, allocation and release routines)
 FV = ("<func>fv", "${result} = 0.5d0*${v} + ${t}", lambda t, v: 0.5 * v + t)
@@ -378,7 +378,9 @@ class FortranGen:
                 return None
             self.cls[tgt] = "exact"
             self.exact.add(tgt)
-            src = self.pick(arrs, "lena") if arrs and t.chance(0.6, "lenarr") else self.pick(uts, "lenu")
+            if self.struct and not arrs:
+                return None
+            src = self.pick(arrs, "lena") if arrs and (self.struct or t.chance(0.6, "lenarr")) else self.pick(uts, "lenu")
             D.add(tgt)
             return ("call", (tgt,), Call("<builtin>len", [Var(src)]), self.mode())
         if k == 13:
@@ -483,6 +485,13 @@ class FortranGen:
             self.phase_names = names
             sc.initial = names[0]
             self.N = 2 + t.draw(3, "N")
+            # structure variant of user type "y": an inline array member a(NA) and a pointer member b(:)
+            # of NB elements; on the Python side the value is the concatenation of both
+            self.struct = None
+            if t.chance(0.3, "struct"):
+                nb = 1 + t.draw(2, "NB")
+                self.struct = (self.N, nb)
+                self.N = self.N + nb
         with t.span("state"):
             self.types["<state>y"] = "ut"
             sc.state0["y"] = np.array([float(self.pick(SMALL + DYADIC, "y0")) for _ in range(self.N)])
@@ -581,6 +590,7 @@ class FortranGen:
         sc.func_alias = {}
         sc.shape_sig = list(self.shape)
         sc.N = self.N
+        sc.struct = self.struct
         sc.M = self.M
         sc.has_v = any(("<state>v" in (op[1],) if op[0] == "assign" else False) or
                        (op[0] == "call" and op[2].fn == "<func>fv") or
@@ -614,9 +624,27 @@ def _flat_all(ops):
             yield op
 
 
+def module_preamble(sc):
+    if not getattr(sc, "struct", None):
+        return None
+    na, nb = sc.struct
+    return """
+        type ytype
+          real*8 :: a(%d)
+          real*8, pointer :: b(:)
+        end type
+        """ % na
+
+
 def user_type_map(sc):
     import dagrt.codegen.fortran as f
-    m = {"y": f.ArrayType((sc.N,), f.BuiltinType("real*8"), index_vars="iv")}
+    if getattr(sc, "struct", None):
+        na, nb = sc.struct
+        m = {"y": f.StructureType("ytype", (
+            ("a", f.ArrayType((na,), f.BuiltinType("real*8"), index_vars="iv")),
+            ("b", f.PointerType(f.ArrayType((nb,), f.BuiltinType("real*8"), index_vars="kw")))))}
+    else:
+        m = {"y": f.ArrayType((sc.N,), f.BuiltinType("real*8"), index_vars="iv")}
     if getattr(sc, "has_v", False):
         m["v"] = f.ArrayType((sc.M,), f.BuiltinType("real*8"), index_vars="jv")
     return m
@@ -637,6 +665,8 @@ def make_registry(sc):
         n_in, body, twin = FFUNCS[fn]
         names = ("y", "z")[:n_in]
         freg = register_ode_rhs(freg, "y", identifier=fn, input_type_ids=("y",) * n_in, input_names=names)
-        freg = freg.register_codegen(fn, "fortran", f.CallCode("\n    " + body + "\n    "))
+        members = ["%a", "%b"] if getattr(sc, "struct", None) else [""]
+        text = "\n".join("    " + body.replace("{m}", m_) for m_ in members)
+        freg = freg.register_codegen(fn, "fortran", f.CallCode("\n" + text + "\n    "))
         twins[fn] = twin
     return freg, twins
